@@ -108,6 +108,11 @@ def run(spec):
 
 
 def one(name, e, m, spec, out=None):
+    r = _one(name, e, m, spec, out)
+    return [r] if isinstance(r, dict) else list(r)
+
+
+def _one(name, e, m, spec, out=None):
     r0 = repr(e)
     if out is None:
         try:
